@@ -107,6 +107,10 @@ def snap_eq(a, b) -> bool:
         return False
     if a is None or b is None:
         return a is b
+    from vf.engine.sym import same_value
+
+    if same_value(a, b):  # same object / same solver term: no solver call
+        return True
     return bool(a == b)
 
 
